@@ -119,6 +119,10 @@ def gen_hp(spec, st):
                 lo = round((s.u('lo', j) - 0.5) * s.choice([1, 10, 1000], 'sc', j), 4)
                 hi = round(lo + s.u('span', j) * s.choice([0.5, 10, 1000], 'sc2', j) + 0.001, 4)
                 default = round(lo + (hi - lo) * s.u('def', j), 6)
+            if s.chance(0.12, 'degenerate', j):
+                # a declaration with min == max (a parameter pinned for this study): still one gene of the DNA
+                hi = lo
+                default = lo
             # same names on every route (two versions of one strategy): only bounds and types differ
             decl.append({'name': f'p{j}', 'type': typ, 'min': lo, 'max': hi, 'default': default})
         r['program']['hp_decl'] = decl
